@@ -16,9 +16,18 @@ def main(tier):
         g = vlib.tlc_or_die(wd, "GenC18", cfg="GenC18.cfg" if not run.thorough else "GenC18T.cfg", workers=1, timeout=900)
         run.extra["scripts"] = (g.tags("COUNTS") or ["?"])[0]
         trace = os.path.join(wd, "trace.ndjson")
-        vlib.run_harness(["c18", "-seed", str(run.seed), "-tier", run.tier, "-out", trace, "-scripts", os.path.join(wd, "scripts.ndjson")], timeout=3400)
+        import mitcross
+        mexe = mitcross.build_mitref()
+        margs = ["-mitref", mexe, "-mitdir", wd] if mexe else []
+        vlib.run_harness(["c18", "-seed", str(run.seed), "-tier", run.tier, "-out", trace, "-scripts", os.path.join(wd, "scripts.ndjson")] + margs, timeout=3400)
         lines = vlib.read_ndjson(trace)
         run.cov["evaluations"] = sum(len(x["reqs"]) for x in lines)
+        toks = [q for x in lines for q in x["reqs"] if q["auth"]]
+        run.extra["independent_acceptor"] = {"implementation": "MIT Kerberos gss_accept_sec_context (SPNEGO), keytab with the keys of both hosts" if mexe else "not available",
+                                             "tokens_judged": sum(1 for q in toks if q["mit"]), "accepted": sum(1 for q in toks if q["mit"] == "accepted"),
+                                             "also_judged_by_gokrb5_acceptor": len(toks)}
+        if mexe and toks and not any(q["mit"] for q in toks):
+            raise vlib.Inconclusive("MIT's acceptor judged no token at all")
         bad = line_trace(run, wd, "TraceC18", len(lines), timeout=3000)
         authed = sum(1 for x in lines for q in x["reqs"] if q["auth"] and q["accepted"])
         run.extra["calls"] = len(lines)
@@ -40,7 +49,7 @@ def main(tier):
             run.violation(facts, {"line": x})
         run.extra["rejected_lines"] = len(bad)
         run.assumptions += ["the scripted server always drains the request body before answering",
-                            "the token of the retried request is judged by gokrb5's own acceptor holding the service key (C01/C05/C13 establish its conformance separately)",
+                            "the token of the retried request is judged by an independent acceptor (MIT's gss_accept_sec_context) and by gokrb5's own acceptor",
                             "redirects use status 307 so that method and body are preserved"]
     finally:
         shutil.rmtree(wd, ignore_errors=True)
